@@ -10,7 +10,7 @@ from qce_circuit.structure.intrf_circuit_operation import RelationLink, MultiRel
 from qce_circuit.structure.intrf_circuit_operation_composite import ICircuitCompositeOperation
 from qce_circuit.structure.intrf_acquisition_operation import IAcquisitionOperation, AcquisitionTag
 from qce_circuit.structure.registry_repetition import FixedRepetitionStrategy
-from qce_circuit.structure.registry_duration import FixedDurationStrategy
+from qce_circuit.structure.registry_duration import FixedDurationStrategy, GlobalRegistryKey, temporary_override_get_registry_at
 from qce_circuit.structure.circuit_operations import DispersiveMeasure, Wait, Rx180, CPhase, Barrier
 from qce_circuit.addon_stim import to_stim
 
@@ -201,7 +201,18 @@ def build_library(case):
                                              qec_cycles=case['cycles'])
 
 
+ENV = {'READOUT': 2.0, 'MICROWAVE': 1.0, 'FLUX': 1.0, 'RESET': 2.0}      # the duration settings every C07 case runs under (harness/c07.py)
+
+
 def handle(case):
+    with temporary_override_get_registry_at({GlobalRegistryKey[k]: v for k, v in ENV.items()}):
+        try:
+            return handle_inner(case)
+        finally:
+            clear_caches()
+
+
+def handle_inner(case):
     clear_caches()
     if case.get('k') == 'lib':
         circuit = build_library(case)
